@@ -53,6 +53,8 @@ class C05(Check):
             shapes = wide + rest[:160]
         for sh in shapes:
             descs.append((G.tx_desc(rng, **sh), "grid-type%d-v%d" % (sh["rct_type"], sh["version"])))
+        for sh in G.ring0_shapes():
+            descs.append((G.tx_desc(rng, **sh), "empty-ring" + ("" if G.shape_is_wf(sh) else "-refused")))
         for _ in range(400 if not thorough else 6000):
             sh = G.random_shape(rng, small=True)
             descs.append((G.tx_desc(rng, **sh), "random-type%d" % sh["rct_type"]))
@@ -77,17 +79,31 @@ class C05(Check):
             if c.line not in seen:
                 seen.add(c.line)
                 out.append(c)
+        # hash() of VALUES (token form), including values that no byte string parses to: the prunable part dropped from a
+        # non-Null transaction, RingCT data attached to a version-1 / zero-input transaction.  Model = implementation only.
+        built = []
+        for t, cls in descs[:120]:
+            built.append(Case("txhash_desc " + " ".join(t), "value-" + cls))
+            if "p" in t:
+                i = len(t) - 1 - t[::-1].index("p")
+                # drop the prunable part: ... base <base> p <prunable>  ->  ... base <base> pnone
+                built.append(Case("txhash_desc " + " ".join(t[:i] + ["pnone"]), "value-prunable-dropped"))
+        for c in built:
+            c.nontrivial = True
+        out_built = [c for c in built if c.line not in seen]
         # boundaries from the library's own parsers, for the oracle
         parts = self.impl_query(["txparts %s %s" % (sz, c.line.split(" ")[2]) for c in out])
         self.parts = {c.line: p for c, p in zip(out, parts)}
         for c in out:
             c.nontrivial = self.parts[c.line].startswith("OK")
-        return out
+        return out + out_built
 
     def oracle(self, case, impl, ctx):
         w = impl.split(" ")
         if w[0] in ("PANIC", "ABORT", "TIMEOUT", "SIZES-MISMATCH"):
             return "implementation did not return: " + w[0]
+        if case.line.startswith("txhash_desc "):
+            return None if w[0] == "OK" else "hash() of a transaction value did not return: " + impl[:60]
         pw = self.parts[case.line].split(" ")
         if w[0] != "OK":
             return None if pw[0] != "OK" else "txid failed on a transaction that parses"
